@@ -5,6 +5,7 @@ property theorems and non-vacuity examples live here; helper lemmas are in
 -/
 import Golib.Proof.C19Fill
 import Golib.Proof.C19Rec
+import Golib.Proof.C19Hid
 import Golib.Gen.FactsC19
 
 namespace Golib.C19
@@ -27,10 +28,11 @@ theorem c19_facts :
     Gen.C19.recoverBody =
       ["defer{if(p:=recover();p!=nil){if(panicFn!=nil){panicFn(p)}else{var buf; buf.Grow(…); buf.WriteString(…); stack(…); fmt.Println(…)}}; if(len(cleanups)==0){return}; var index; defer{if(p:=recover();p!=nil){s:=fmt.Sprintf(…); if(panicFn!=nil){panicFn(s)}else{fmt.Println(…)}}}; range(i,cleanup:cleanups){index=i; cleanup()}}",
        "fn()"] ∧
+    Gen.C19.setHandlerBody = ["l.panicHandler=fn", "return l"] ∧
     Gen.C19.waitUntimedTail = "l.w.Wait()" ∧
     Gen.C19.waitTimedBody =
       ["if(len(waitTime)>0){quit:=make(chanstruct{},1); go func(chchan<-struct{}){l.w.Wait()ch<-struct{}{}}(…); select{case recv quit:{} case recv time.After(waitTime[0]):{}}; return}"] :=
-  ⟨rfl, rfl, rfl, rfl, rfl, rfl, rfl, rfl, rfl⟩
+  ⟨rfl, rfl, rfl, rfl, rfl, rfl, rfl, rfl, rfl, rfl⟩
 
 /-- `NewLimiter(limit)`: a limit below 1 falls back to 3. -/
 theorem c19_default_limit (limit : Int) :
@@ -126,6 +128,58 @@ theorem c19_wait_timeout_preserves_bound (limit : Int) (before after : List Labe
 submitted and stays blocked before its send (`new`): one function inside, one token. -/
 example : ∃ s, (newLimiter 1).run [.submit .ok, .adv 0, .adv 0, .adv 0, .adv 0, .waitTimed,
       .submit .ok] = some s ∧ s.running = 1 ∧ s.k = 1 ∧ s.adv 1 = none := by
+  refine ⟨_, rfl, ?_⟩
+  decide
+
+/-- `c19_handler_configured` ("the panic value reaches the CONFIGURED handler", for every
+order of `SetPanicHandler` and `Go`): (1) `SetPanicHandler(h)` is a store to
+`l.panicHandler` and nothing else — it may come before the first `Go`, between rounds,
+after panics; every other theorem of this file holds for histories containing it;
+(2) a submission reads that field exactly once, at its `go Recover(fn, l.panicHandler,
+l.done)` statement (fact `goBody`: no cached copy, no `sync.Once`): the task's handler is
+the one configured at that moment; (3) no later step of anybody — in particular no later
+`SetPanicHandler` — changes the handler of a task whose `Go` has returned.  Together with
+`c19_handler`: the value goes, once, to the handler that was current when the function
+was submitted. -/
+theorem c19_handler_configured (s s' : St) (l : Label) (h : s.step l = some s') :
+    (∀ hh, l = .setHandler hh → s' = { s with cur := hh }) ∧
+    (∀ (i : Nat) (t : Task), s.tasks[i]? = some t → t.pc = .added → l = .adv i →
+        ∃ t', s'.tasks[i]? = some t' ∧ t'.pc = .ready ∧ t'.hid = s.cur) ∧
+    (∀ (i : Nat) (t : Task), s.tasks[i]? = some t → 3 ≤ t.pc.rank →
+        ∃ t', s'.tasks[i]? = some t' ∧ t'.hid = t.hid) := by
+  refine ⟨fun hh e => ?_, fun i t ht hpc e => ?_, fun i t ht hr => ?_⟩
+  · subst e; simpa [St.step] using h.symm
+  · subst e
+    obtain ⟨t', h1, h2, h3⟩ := adv_hid (by simpa [St.step] using h) i t ht
+    exact ⟨t', h1, h3 rfl hpc, by simpa [hpc] using h2⟩
+  · have hne : t.pc ≠ .added := by
+      intro e; rw [e] at hr; simp [Pc.rank] at hr
+    cases l with
+    | adv j =>
+      obtain ⟨t', h1, h2, _⟩ := adv_hid (by simpa [St.step] using h) i t ht
+      exact ⟨t', h1, by simpa [hne] using h2⟩
+    | submit o =>
+      simp only [St.step, Option.some.injEq] at h
+      subst h
+      have hlen : i < s.tasks.length := (List.getElem?_eq_some_iff.1 ht).1
+      exact ⟨t, by simp [List.getElem?_append_left hlen, ht], rfl⟩
+    | waitCall => simp only [St.step, Option.some.injEq] at h; subst h; exact ⟨t, ht, rfl⟩
+    | waitTimed => simp only [St.step, Option.some.injEq] at h; subst h; exact ⟨t, ht, rfl⟩
+    | setHandler hh => simp only [St.step, Option.some.injEq] at h; subst h; exact ⟨t, ht, rfl⟩
+    | waitRet j =>
+      simp only [St.step] at h
+      split at h
+      · split at h
+        · cases h; exact ⟨t, ht, rfl⟩
+        · cases h
+      · cases h
+
+/-- Non-vacuity: handler 1 is configured after task 0 (handler 0) was submitted and
+before task 1; both panic: 7 goes to handler 0, 8 to handler 1. -/
+example : ∃ s, (newLimiter 2).run [.submit (.panic 7), .adv 0, .adv 0, .adv 0, .adv 0,
+      .setHandler 1, .submit (.panic 8), .adv 1, .adv 1, .adv 1, .adv 1,
+      .adv 0, .adv 0, .adv 1, .adv 1] = some s ∧
+    s.tasks.map (fun t => (t.hid, t.handled)) = [(0, [.val 7]), (1, [.val 8])] := by
   refine ⟨_, rfl, ?_⟩
   decide
 
